@@ -169,6 +169,16 @@ def _election(eseed, district=False, big=False, n_units=None, nan_cls=False):
         if n_units:
             n = n_units
         pre, cur = synth.make_election(n=n, states=STATES, seed=eseed, frac_reporting=frac, district=district)
+        if not district:
+            # close contests: every state's counted two-party vote is within half a percent of a tie, so that the national
+            # summary (which thresholds the contest margins) is sensitive to what the bootstrap errors are - a summary
+            # that is computed from corrupted errors the second time differs visibly (seeded change C12_B)
+            two = (cur["results_dem"] + cur["results_gop"]).to_numpy()
+            rs = np.random.default_rng(eseed + 17)
+            lean = {st: e for st, e in zip(STATES, (0.004, -0.004, 0.001))}
+            share = np.array([0.5 + lean.get(st, 0.0) for st in cur["postal_code"]]) + rs.normal(0, 0.02, len(cur))
+            cur["results_dem"] = np.round(two * np.clip(share, 0.05, 0.95)).astype(int)
+            cur["results_gop"] = (two - cur["results_dem"]).astype(int)
         # degenerate baselines (a precinct where one party, or nobody, had votes last time): how such a unit is
         # categorised must not depend on which estimands a request names (seeded change C13_C)
         for i, col in ((5, "baseline_dem"), (11, "baseline_gop"), (17, "baseline_dem"), (22, "baseline_gop"), (29, "baseline_turnout")):
